@@ -12,7 +12,7 @@ import os
 import shutil
 
 from .. import tlc
-from ..absgrammar import alt, call, eof, grammar, join, opt, plus, rule, seq, star, subexps, tok, to_ebnf
+from ..absgrammar import alt, call, eof, grammar, join, opt, plus, rule, seq, star, subexps, tok, to_ebnf, zwpat
 from ..common import Check, pmap
 
 
@@ -21,7 +21,9 @@ def options(names):
                 # positive joins / gathers: able to match empty exactly when their ELEMENT is (the separator plays no part)
                 join(tok(','), opt(tok('x')), True, True), join(tok(','), tok('x'), True, True), join(opt(tok(',')), tok('x'), True, False),
                 join(tok(','), opt(tok('x')), True, False), plus(opt(tok('x'))),
-                eof()]                                  # $ consumes nothing: what follows it is still at the rule's own start position
+                eof(),                                  # $ consumes nothing: what follows it is still at the rule's own start position
+                # patterns that can only match the empty string - and do not match it on the EMPTY text, which is what the analysis asked
+                zwpat('\\b'), zwpat('(?=y)')]
     targets = [tok('y')] + [call(n) for n in names]
     out = []
     for p in prefixes:
